@@ -2951,10 +2951,20 @@ func (d *Document) serializeRelationships() {
 
 // serializeDocumentRelationships 序列化文档关系
 func (d *Document) serializeDocumentRelationships() {
+	// styles.xml 的关系默认使用 rId1；打开的文档可能已把 rId1 用于其他部件，
+	// 此时为 styles.xml 选择一个未被占用的ID，避免同一关系文件中出现重复ID
+	stylesID := "rId1"
+	for _, rel := range d.documentRelationships.Relationships {
+		if rel.ID == stylesID {
+			stylesID = unusedRelationshipID(d.documentRelationships.Relationships, len(d.documentRelationships.Relationships)+2)
+			break
+		}
+	}
+
 	// 获取已存在的关系，从索引1开始（保留给styles.xml）
 	relationships := []Relationship{
 		{
-			ID:     "rId1",
+			ID:     stylesID,
 			Type:   "http://schemas.openxmlformats.org/officeDocument/2006/relationships/styles",
 			Target: "styles.xml",
 		},
@@ -2971,6 +2981,32 @@ func (d *Document) serializeDocumentRelationships() {
 
 	data, _ := xml.MarshalIndent(docRels, "", "  ")
 	d.parts["word/_rels/document.xml.rels"] = append([]byte(xml.Header), data...)
+}
+
+// unusedRelationshipID 从 rId<start> 开始查找列表中尚未使用的关系ID。
+// rId1 保留给 styles.xml，永不返回。
+func unusedRelationshipID(relationships []Relationship, start int) string {
+	used := make(map[string]bool, len(relationships)+1)
+	used["rId1"] = true
+	for _, rel := range relationships {
+		used[rel.ID] = true
+	}
+	for n := start; ; n++ {
+		id := fmt.Sprintf("rId%d", n)
+		if !used[id] {
+			return id
+		}
+	}
+}
+
+// nextDocumentRelationshipID 返回 word/_rels/document.xml.rels 中尚未使用的关系ID。
+// 对于本库自己生成的连续编号，结果与"关系数+2"相同；对于打开的、ID不连续的
+// 文档，保证不与已有关系冲突。
+func (d *Document) nextDocumentRelationshipID() string {
+	if d.documentRelationships == nil {
+		return "rId2"
+	}
+	return unusedRelationshipID(d.documentRelationships.Relationships, len(d.documentRelationships.Relationships)+2)
 }
 
 // serializeStyles 序列化样式
